@@ -190,6 +190,14 @@ struct Mon {
     for (long k : kH) c04_all(Args6{y, m, d, k, 0, 0}, "cycle-hour");
     for (long k : kN) c04_all(Args6{y, m, d, 0, k, 0}, "cycle-minute");
     for (long k : kS) c04_all(Args6{y, m, d, 23, 59, 59 + k}, "cycle-second");
+    // a landmark day count reached only together with the whole-day carry of the time-of-day fields
+    for (long K : {365L, 366L, 1461L, 36524L, 36525L, 146097L, 292194L}) {
+      c04_all(Args6{y, m, -K + 1, -1, 0, 0}, "cycle-carry");
+      c04_all(Args6{y, m, -K - 1, 24, 0, 0}, "cycle-carry");
+      c04_all(Args6{y, m, K - 1, 23, 59, 60}, "cycle-carry");
+      c04_all(Args6{y, m, d - K + 1, 0, -1, 0}, "cycle-carry");
+      c04_all(Args6{y, m, d + K - 1, 0, 1440, 0}, "cycle-carry");
+    }
     // two and three fields at once
     c04_all(Args6{y, m + 13, d - 366, 25, -61, 3661}, "cycle-mixed");
     c04_all(Args6{y, m - 25, d + 146097, -49, 1500, -90000}, "cycle-mixed");
